@@ -3332,6 +3332,10 @@ impl KotoVm {
                 .splice(unpack_index..unpack_index + 1, unpacked_values.drain(..));
         }
 
+        // The packed arguments have been unpacked, the call info can be passed on as it is
+        // (e.g. to the @call function of a callable map) without unpacking them again.
+        info.packed_arg_count = 0;
+
         Ok(())
     }
 
